@@ -18,6 +18,7 @@ import (
 	"math/big"
 	"sort"
 	"strconv"
+	"strings"
 	"time"
 
 	"github.com/NibiruChain/collections"
@@ -581,7 +582,24 @@ func tables(e1, e2 map[string]interface{}, s1, s2 map[string]interface{}, r *reg
 		md := tfd.DefaultBankMetadata()
 		tfp = append(tfp, J{r.S(d), r.S(tfd.Creator), r.V("str:" + tfd.Subdenom), r.P(&md)})
 	}
-	return map[string]interface{}{"tfparse": tfp, "empty_code": r.V("code:")}
+	// asset.Pair JSON codec applied to every string that is a valid pair (what a genesis file decodes it to)
+	pj := J{}
+	for _, d := range denoms {
+		pr := asset.Pair(d)
+		if pr.Validate() != nil {
+			continue
+		}
+		bz, err := json.Marshal(pr)
+		var back asset.Pair
+		if err == nil {
+			err = json.Unmarshal(bz, &back)
+		}
+		if err != nil {
+			back = "<json error>"
+		}
+		pj = append(pj, J{r.S(d), r.S(back.String())})
+	}
+	return map[string]interface{}{"tfparse": tfp, "empty_code": r.V("code:"), "pairjson": pj}
 }
 
 // ---------------------------------------------------------------- sampled queries
@@ -661,3 +679,46 @@ var erc20ABI = embeds.SmartContract_ERC20MinterWithMetadataUpdates.ABI
 var _ = authtypes.ModuleName
 
 func rangeU64() collections.Range[uint64] { return collections.Range[uint64]{} }
+
+// stringClasses: which collections hold a string that is not all lower-case (for the input histogram only)
+func stringClasses(ctx sdk.Context, a *app.NibiruApp) []string {
+	mixed := func(s string) bool { return s != strings.ToLower(s) }
+	out := []string{}
+	add := func(name string, hit bool) {
+		if hit {
+			out = append(out, name)
+		}
+	}
+	hit := false
+	for _, p := range a.OracleKeeper.WhitelistedPairs.Iterate(ctx, collections.Range[asset.Pair]{}).Keys() {
+		hit = hit || mixed(p.String())
+	}
+	add("oracle-pair-whitelisted", hit)
+	hit = false
+	for _, p := range a.OracleKeeper.ExchangeRates.Iterate(ctx, collections.Range[asset.Pair]{}).Keys() {
+		hit = hit || mixed(p.String())
+	}
+	add("oracle-pair-priced", hit)
+	hit = false
+	for _, v := range a.OracleKeeper.Votes.Iterate(ctx, collections.Range[sdk.ValAddress]{}).Values() {
+		for _, t := range v.ExchangeRateTuples {
+			hit = hit || mixed(t.Pair.String())
+		}
+	}
+	add("oracle-pair-in-pending-vote", hit)
+	hit = false
+	it := a.TokenFactoryKeeper.Store.Denoms.Iterate(ctx, collections.Range[string]{})
+	for ; it.Valid(); it.Next() {
+		hit = hit || mixed(it.Value().Subdenom)
+	}
+	it.Close()
+	add("tf-subdenom", hit)
+	hit = false
+	it2 := a.EvmKeeper.FunTokens.Iterate(ctx, collections.Range[[]byte]{})
+	for ; it2.Valid(); it2.Next() {
+		hit = hit || mixed(it2.Value().BankDenom)
+	}
+	it2.Close()
+	add("funtoken-bank-denom", hit)
+	return out
+}
